@@ -489,7 +489,7 @@ def file_meaning(obs, t, id, second, ph):
             if w == 0:
                 return ("none",)
             lst = kind_list["circ" if second else K1[t]]
-            if w - 1 < len(lst):
+            if 0 < w <= len(lst):
                 return ("name", lst[w - 1])
             return ("invalid", w)
     return ("absent",)
@@ -784,7 +784,7 @@ def indices_in_range(obs, ph):
     n = {"point": len(props[0]), "bdry": len(props[1]), "block": len(props[2]), "circ": len(props[3])}
     for rows, t in ((nodes, "node"), (segs, "seg"), (arcs, "arc"), (labels, "label")):
         for r in rows:
-            if r[1] > n[K1[t]] or r[2] > n["circ"]:
+            if not (0 <= r[1] <= n[K1[t]] and 0 <= r[2] <= n["circ"]):
                 return False
     return True
 
@@ -971,7 +971,7 @@ def run_probe(ctx, h, n):
     lines.append("end")
     sp = os.path.join(ctx.work, "probe%d.lua" % n)
     open(sp, "w").write("\n".join(lines) + "\n")
-    rc, out, err = vlib.sh([ctx.snap.tool("femmcli"), "--lua-script=" + sp], timeout=25, cwd=ctx.work)
+    rc, out, err = vlib.sh([ctx.snap.tool("femmcli"), "--lua-script=" + sp], timeout=8, cwd=ctx.work)
     txt = out + "\n" + err
     for f in os.listdir(ctx.work):
         if f.startswith("probe%d." % n):
@@ -1017,17 +1017,50 @@ def model_eval(hists, quick):
                 (", probe_out %s (run false %s h) qs, probe_out %s (run true %s h) qs" % (ph, ph, ph, ph))
                 if h.get("probe") else ""))
         exprs.append(e)
-    return vlib.coq_eval(HEADER, exprs, shard=200 if quick else 400, timeout=2400)
+    return parallel_eval(exprs, 150 if quick else 400)
+
+
+def _eval_chunk(chunk):
+    return vlib.coq_eval(HEADER, chunk, shard=len(chunk) + 1, timeout=2400)
+
+
+def parallel_eval(exprs, shard):
+    """vm_compute the expressions in several coqc processes (each worker process has its own
+    scratch directory in vlib.coq_eval)"""
+    import concurrent.futures, multiprocessing
+    chunks = [exprs[i:i + shard] for i in range(0, len(exprs), shard)]
+    if len(chunks) <= 1:
+        return _eval_chunk(exprs) if exprs else []
+    workers = max(1, min(6, (os.cpu_count() or 2) // 2, len(chunks)))
+    out = []
+    with concurrent.futures.ProcessPoolExecutor(max_workers=workers, mp_context=multiprocessing.get_context("fork")) as ex:
+        for part in ex.map(_eval_chunk, chunks):
+            out.extend(part)
+    return out
+
+
+def from_json_ops(ops):
+    return [tuple(tuple(x) if isinstance(x, list) else x for x in o) for o in ops]
 
 
 def gen_all(ctx):
     rng = ctx.rng
     hists = []
+    rp = getattr(ctx, "replay", None)
+    if rp and isinstance(rp.get("replay"), dict) and rp["replay"].get("ops"):
+        r = rp["replay"]
+        ops = from_json_ops(r["ops"])
+        tr = Tracker(r.get("physics", "elec"))
+        for o in ops:
+            if o[0] != "reopen":
+                tr.step(o)
+        qs = [(t, e.id, s) for t in TYPES for e in tr.ents[t] for s in (False, True) if has_slot(tr.ph, t, s)]
+        return [dict(ph=tr.ph, kind="replay", ops=ops, qs=qs, probe=bool(r.get("probe")))]
     cdir = os.path.join(vlib.VERIF, "corpus", "C15")
     if os.path.isdir(cdir):
         for f in sorted(os.listdir(cdir)):
             c = json.load(open(os.path.join(cdir, f)))
-            c["ops"] = [tuple(tuple(x) if isinstance(x, list) else x for x in o) for o in c["ops"]]
+            c["ops"] = from_json_ops(c["ops"])
             c["qs"] = [tuple(q) for q in c["qs"]]
             hists.append(c)
     if ctx.quick():
@@ -1035,7 +1068,6 @@ def gen_all(ctx):
             F = focus_defs(ph)
             hists += list(exhaustive(ph, F[0], 2))
             if ph == "elec":
-                hists += list(exhaustive(ph, F[0], 3))
                 for f in F[1:]:
                     hists += list(exhaustive(ph, f, 2))
             for _ in range(35):
@@ -1093,7 +1125,7 @@ def correspond(ctx):
         detail = bb[0] if bb else b
         ctx.fail("saved file does not keep the association the script made: " + detail["what"],
                  signature=sig, physics=h["ph"], history=[coq_op(o) for o in strip_base(ops)],
-                 lua=lua_text(h["ph"], ops), detail={k: v for k, v in detail.items() if k != "what"})
+                 lua=lua_text(h["ph"], ops), detail={k: v for k, v in detail.items() if k != "what"}, ops=ops)
     # ---- analysis probes
     probes = [h for h in live if h.get("probe")]
     pres = {}
@@ -1132,7 +1164,7 @@ def correspond(ctx):
             if crash:
                 return bool(r) and r["status"] == "crash" and r["rc"] != 124
             return probe_violation(r) is not None
-        ops = shrink(ctx, h, pf, budget=60, nbase=len(BASE_FULL) + 4)
+        ops = shrink(ctx, h, pf, budget=25 if crash else 40, nbase=len(BASE_FULL) + 4)
         sig = ("analysis-crash:" if crash else "analysis-uses-other-property:") + classify(ops, "elec") + \
               ("-after-open" if any(o[0] == "reopen" for o in ops) else "")
         if sig in preported:
@@ -1141,7 +1173,7 @@ def correspond(ctx):
         if not crash:
             msg = probe_violation(run_probe(ctx, dict(ph="elec", ops=ops), 999)) or msg
         ctx.fail(msg, signature=sig, physics="elec", history=[coq_op(o) for o in strip_base(ops)],
-                 lua=lua_text("elec", ops))
+                 lua=lua_text("elec", ops), ops=ops, probe=True)
     # ---- the Coq model on the same histories
     model = model_eval(live, ctx.quick())
     agree = {False: 0, True: 0}
